@@ -70,11 +70,15 @@ func seededPrime(s *stream, bits int) *big.Int {
 }
 
 // GenerateRSA derives an RSA-2048 key (e = 65537) from a seed: own prime search, so the key is a function of the seed.
-func GenerateRSA(seed uint64) *RSAKey {
+func GenerateRSA(seed uint64) *RSAKey { return GenerateRSAExp(seed, 65537) }
+
+// GenerateRSAExp: the same with another public exponent (odd, > 1, < 2^31: what an RSA key in PKCS#1 form may carry and
+// Go's crypto/rsa accepts); primes are drawn until the exponent is invertible.
+func GenerateRSAExp(seed uint64, exp int) *RSAKey {
 	s := &stream{}
 	binary.LittleEndian.PutUint64(s.seed[:], seed)
 	copy(s.seed[8:], "verif-rsa-key")
-	e := big.NewInt(65537)
+	e := big.NewInt(int64(exp))
 	for {
 		p, q := seededPrime(s, 1024), seededPrime(s, 1024)
 		if p.Cmp(q) == 0 {
@@ -89,7 +93,7 @@ func GenerateRSA(seed uint64) *RSAKey {
 		if d == nil {
 			continue
 		}
-		return &RSAKey{N: n, D: d, E: 65537}
+		return &RSAKey{N: n, D: d, E: exp}
 	}
 }
 
